@@ -37,6 +37,11 @@ type c17Case struct {
 	Ops     []int  // index into Pool: import that file (again)
 	Generic bool   // import plain protoreflect descriptors (protodesc.NewFile) instead of the linker's results
 	Lenient []bool // per op: the reporter accepts every error (returns nil) instead of failing fast
+	// Wrap, per op: how the descriptor is handed over. 0 = as it is; 1 = wrapped by linker.NewFileRecursive;
+	// 2 = not the file itself but its import base.proto, as the File that FindImportByPath returns (a File around a
+	// FileImport); 3 = base.proto as the FileImport value of the file's import list. base.proto is imported first
+	// in every history, so 2 and 3 must do nothing.
+	Wrap []int
 }
 
 // genSymPool draws small files over few packages, names and extension numbers so that collisions are common.
@@ -312,7 +317,41 @@ func c17Check(c c17Case, r *ev.Rec) error {
 		if f == nil {
 			continue
 		}
-		err := syms.Import(fds[op], handlerFor(step))
+		wrap := 0
+		if step < len(c.Wrap) {
+			wrap = c.Wrap[step]
+		}
+		arg := fds[op]
+		if wrap >= 1 {
+			lf, werr := linker.NewFileRecursive(fds[op])
+			if werr != nil {
+				return fmt.Errorf("NewFileRecursive(%s): %v", c.Pool[op].Name, werr)
+			}
+			arg = lf
+			if wrap >= 2 {
+				var baseArg protoreflect.FileDescriptor
+				if wrap == 2 {
+					if bf := lf.FindImportByPath("base.proto"); bf != nil {
+						baseArg = bf
+					}
+				} else if fds[op].Imports().Len() > 0 {
+					baseArg = fds[op].Imports().Get(0)
+				}
+				if baseArg == nil {
+					continue
+				}
+				r.Label(fmt.Sprintf("reimport-base-wrapped=%d", wrap))
+				if err := syms.Import(baseArg, handlerFor(step)); err != nil {
+					return fmt.Errorf("step %d: importing base.proto again (wrapped form %d, reached through %s) failed although it is already in the table: %v\nhistory:\n  %s", step, wrap, c.Pool[op].Name, err, strings.Join(history, "\n  "))
+				}
+				if verr := verify(fmt.Sprintf("after step %d (re-import of base.proto, wrapped form %d)", step, wrap)); verr != nil {
+					return verr
+				}
+				history = append(history, fmt.Sprintf("import base.proto again (wrapped form %d via %s): ok", wrap, c.Pool[op].Name))
+				continue
+			}
+		}
+		err := syms.Import(arg, handlerFor(step))
 		want := ""
 		if !model.imported[op] {
 			want = model.collides(infos[op])
@@ -399,7 +438,7 @@ func sortedExts(m map[[2]string]bool) [][2]string {
 
 func TestC17_History(t *testing.T) {
 	ev.Run(t, ev.Spec[c17Case]{ID: "C17", Name: "History", Quick: 800, Thorough: 40000,
-		Rule: "a pool of 2-5 small files over packages {none, p, p.q, r, p.A} declaring messages/enums/services named A, B, q, C and extensions of two shared messages with tags 1-3 (so name, package-vs-element and extension-number collisions are common), each compiled separately against one shared base file; a history of 2-10 imports (with re-imports) into ONE Symbols table, handing Import either the linker's own results or plain descriptors built with protodesc.NewFile, each import with a fail-fast or an accept-everything reporter; enum values may be named like another file's element; oracle: a reference table (map of names and extension numbers, updated only on successful imports) predicts whether each import collides, and after EVERY step Lookup of every name in the universe and LookupExtension of every (message, tag) agree with the reference table - in particular a failed import adds nothing and fails again when repeated; non-trivial = a failed import followed by lookups and by a re-import of the same file; distinct by pool+history",
+		Rule: "a pool of 2-5 small files over packages {none, p, p.q, r, p.A} declaring messages/enums/services named A, B, q, C and extensions of two shared messages with tags 1-3 (so name, package-vs-element and extension-number collisions are common), each compiled separately against one shared base file; a history of 2-10 imports (with re-imports) into ONE Symbols table, handing Import either the linker's own results or plain descriptors built with protodesc.NewFile, as they are, wrapped by linker.NewFileRecursive, or (for the base file, which is always in the table already) as the File returned by FindImportByPath and as the FileImport value of an import list, each import with a fail-fast or an accept-everything reporter; enum values may be named like another file's element; oracle: a reference table (map of names and extension numbers, updated only on successful imports) predicts whether each import collides, and after EVERY step Lookup of every name in the universe and LookupExtension of every (message, tag) agree with the reference table - in particular a failed import adds nothing and fails again when repeated; non-trivial = a failed import followed by lookups and by a re-import of the same file; distinct by pool+history",
 		Gen: func(t *rapid.T) c17Case {
 			n := 2 + gen.Uniform(t, 4, "npool")
 			c := c17Case{Pool: genSymPool(t, n), Generic: gen.Pct(t, 35, "generic")}
@@ -407,6 +446,7 @@ func TestC17_History(t *testing.T) {
 			for i := 0; i < nops; i++ {
 				c.Ops = append(c.Ops, gen.Uniform(t, n, "op"))
 				c.Lenient = append(c.Lenient, gen.Pct(t, 30, "lenient"))
+				c.Wrap = append(c.Wrap, gen.Pick(t, []int{0, 0, 0, 1, 2, 3}, "wrap"))
 			}
 			return c
 		},
